@@ -10,7 +10,7 @@ PROOF_FILES = [f for f in ['proofs/MetaProofs.v', 'proofs/WorldProofs.v'] if os.
 
 
 def main(tier, seed):
-    return icheck.run(PROP, tier, seed, genchart.Profile(p_contract=0.1, p_send=0.5), ifam.ScenarioSpec(n_rec=2, props=2, p_queue=0.4), icheck.interest_c10, PROOF_FILES, consts=True, assumptions=['user notify names differ from the built-in meta-event names'])
+    return icheck.run(PROP, tier, seed, genchart.Profile(p_contract=0.1, p_send=0.55, p_notify=0.3, p_entry_code=0.6, alt=[(0.25, genchart.parallel_profile(p_send=0.5, p_notify=0.3, p_action=0.8))]), ifam.ScenarioSpec(n_rec=2, props=2, p_queue=0.4), icheck.interest_c10, PROOF_FILES, consts=True, assumptions=['user notify names differ from the built-in meta-event names'])
 
 
 replay = icheck.replay
